@@ -215,6 +215,17 @@ func dependsOnCallNamed(v ssa.Value, name string) bool {
 		case *ssa.UnOp:
 			// load of a captured/local variable: follow the stores into it within the program
 			if y.Op == token.MUL {
+				if fa, ok := y.X.(*ssa.FieldAddr); ok {
+					// a field of one of the library's own structs: whatever the library stores into it
+					if fv := fieldVar(fa); fv != nil && !fv.Exported() {
+						for _, sv := range libFieldStores[fv] {
+							if walk(sv) {
+								return true
+							}
+						}
+					}
+					return false
+				}
 				return walkStores(y.X, walk)
 			}
 		}
